@@ -305,11 +305,11 @@ PROPS = {
         level_text="Kani proves per width, over ALL f64 (and f32) bit patterns partitioned into range harnesses, the exact classification and value of TryFrom<f64>/<f32> "
                    "(NaN, negative, floor(f+1/2) computed exactly from the bits, ValueTooLarge), the saturating/wrapping forms, and for Uint-to-float: neighbour-of-exact-value, exactness when representable, finiteness, monotonicity",
         level_note="floats are outside Verus; CBMC is bit-precise for IEEE arithmetic but NOT for libm: f64::exp2/f32::exp2 are stubbed by their contract (exact power of two, the stub asserts an integral in-range argument) "
-                   "and fmod only feeds an unchecked payload; widths 0,1,8,53,64,65,128 (float->Uint, LIMBS <= 2) and up to 192 (Uint->float); BITS > 1024 (+inf) not covered",
+                   "and fmod only feeds an unchecked payload; widths 0,1,8,53,64,65,128 (float->Uint, LIMBS <= 2) and up to 192 (Uint->float); the top of f64's range (2^1022, 2^1023, f64::MAX, 2^1024 -> +inf) only on concrete values at 1024/1088 bits",
         technique="Kani contract harnesses over all float bit patterns per width, libm modelled by contract stubs",
         units=[],
         kani=dict(features=None,
-                  quick=hs("c18", r"_w(1|8|64|65)$|selfcheck|all_w0", r"sat_f32|mono_f32_w8"),
+                  quick=hs("c18", r"_w(1|8|64|65)$|selfcheck|all_w0|top_w1024", r"sat_f32|mono_f32_w8"),
                   thorough=hs("c18"), timeout_thorough=5000,
                   bounds="all bit patterns per width; TryFrom<f64> at LIMBS <= 2"),
         explanation="harness-level contracts with an integer decode of the float bits as oracle",
